@@ -8,7 +8,9 @@
    is on, and is in the subset if one is given";  elig c = the increasing list of those spikes;
    Count_Spec n E R = "R = E when n is None, n <= 0 or |E| <= n, and |R| = n otherwise". *)
 From Coq Require Import ZArith List Lia Bool Sorted.
-From PV Require Import Base.PySlice Base.NpSearch C17.Model C17.Spec C17.Proofs C17.Proofs2 C17.Proofs3.
+From PV Require Import Base.PySlice Base.NpSearch C17.Model C17.Spec C17.Proofs C17.Proofs2 C17.Proofs3
+                       C17.Proofs4 C17.Proofs5 C17.Proofs6 C17.Link.
+From PV Require C07.Model.
 Import ListNotations.
 Open Scope Z_scope.
 
@@ -158,3 +160,192 @@ Example C17_ex_select :
   selector_call choose0 times clusters [0; 10; 20; 30; 40; 50] 2 (Some 2) [2; 9; 1] true
                 (Some [0; 1; 2; 3; 4; 5; 6; 9]) = Some [0; 1; 2].
 Proof. vm_compute. repeat split; repeat constructor; lia. Qed.
+
+(* ===== stage 3: tightness, order independence, checker completeness, error exits, link to C07 ===== *)
+
+(* The specification is TIGHT.  Under the premises of C17_select, an array r satisfies the three
+   clauses of the statement (Select_Spec: strictly increasing, only eligible spikes of requested
+   clusters, per requested cluster all eligible ones or exactly the count) IF AND ONLY IF some
+   admissible np.random.choice makes SpikeSelector.__call__ return r.  So C17_select loses nothing:
+   the statement describes exactly the set of arrays the code can return, and the comparator's
+   relational judgement (clauses 22-26) accepts exactly the outputs the model can produce. *)
+Theorem C17_select_exact : forall (times clusters grid : list Z) (k : Z) (n : option Z) (req : list Z)
+    (sc : bool) (sub : option (list Z)),
+  length times = length clusters -> sortedZ grid -> 1 <= zlen grid -> 1 <= k ->
+  exists ivs, chunks_kept grid k = Some (flat ivs) /\
+    forall r, Select_Spec times clusters ivs sc sub n req r <->
+              exists choose,
+                (forall j ids m, NoDup ids -> 0 < m < zlen ids ->
+                   NoDup (choose j ids m) /\ zlen (choose j ids m) = m /\ incl (choose j ids m) ids) /\
+                selector_call choose times clusters grid k n req sc sub = Some r.
+Proof. exact selector_exact. Qed.
+Print Assumptions C17_select_exact.
+
+(* The request list matters only through its SET of members: order and repetitions of the requested
+   clusters are irrelevant.  (a) For every oracle whose draw depends only on the candidate list and
+   the count (not on the position of the cluster in the request list) the two calls return the same
+   array or both raise -- no premise on lengths, grid or oracle admissibility is needed.  (b) For
+   arbitrary admissible oracles (NumPy's generator is stateful, so a reordering hands different draws
+   to the clusters) the SET of arrays that can be returned is the same. *)
+Theorem C17_request_order : forall (times clusters grid : list Z) (k : Z) (n : option Z)
+    (req req' : list Z) (sc : bool) (sub : option (list Z)),
+  (forall c, In c req <-> In c req') ->
+  (forall choose, (forall j j' ids m, choose j ids m = choose j' ids m) ->
+     selector_call choose times clusters grid k n req sc sub =
+     selector_call choose times clusters grid k n req' sc sub) /\
+  (length times = length clusters -> sortedZ grid -> 1 <= zlen grid -> 1 <= k ->
+   forall r, (exists choose, Choose_OK choose /\
+                             selector_call choose times clusters grid k n req sc sub = Some r) <->
+             (exists choose, Choose_OK choose /\
+                             selector_call choose times clusters grid k n req' sc sub = Some r)).
+Proof. exact selector_members. Qed.
+Print Assumptions C17_request_order.
+
+(* save_spikes_subset_waveforms requests sorted(spt.keys()); requesting the templates that have
+   spikes in any other order (or with repetitions) gives the same saved spike ids for index-free
+   oracles, and the same set of possible saved spike ids for admissible ones.  (Hence replacing
+   `sorted(spt.keys())` by `list(spt.keys())` cannot break the property.) *)
+Theorem C17_route_order : forall (samples templates grid : list Z) (nst : Z) (req' : list Z),
+  (forall c, In c req' <-> In c templates) -> 1 <= nst ->
+  (forall choose, (forall j j' ids m, choose j ids m = choose j' ids m) ->
+     selector_call choose samples templates grid 20 (Some nst) req' true None =
+     route choose samples templates grid nst) /\
+  (length samples = length templates -> sortedZ grid -> 1 <= zlen grid ->
+   forall r, (exists choose, Choose_OK choose /\ route choose samples templates grid nst = Some r) <->
+             (exists choose, Choose_OK choose /\
+                selector_call choose samples templates grid 20 (Some nst) req' true None = Some r)).
+Proof. exact route_order. Qed.
+Print Assumptions C17_route_order.
+
+(* the boolean checkers are complete: with C17_checker_sound, kept_spec_b / select_spec_b decide
+   Kept_Spec / Select_Spec exactly (the grid has at least one bound) *)
+Theorem C17_checker_complete : forall (times clusters grid : list Z) (k : Z) (ivs ivs' : list iv)
+    (sc : bool) (sub : option (list Z)) (n : option Z) (req r : list Z),
+  (1 <= zlen grid -> Kept_Spec grid k ivs' -> kept_spec_b grid k (flat ivs') = true) /\
+  (Select_Spec times clusters ivs sc sub n req r ->
+   select_spec_b times clusters ivs sc sub n req r = true).
+Proof.
+  intros. split; [apply kept_spec_b_complete|apply select_spec_b_complete].
+Qed.
+Print Assumptions C17_checker_complete.
+
+(* error exits.  (a) IndexError of self.spike_times[spike_ids]: if a requested cluster has a spike
+   whose position is beyond the end of spike_times the call raises, for every oracle (the premise
+   "equal lengths" of C17_select cannot be weakened to "any lengths").  (b) `assert nst > 0`. *)
+Theorem C17_error_exits : forall (choose : nat -> list Z -> Z -> list Z)
+    (times clusters kept grid : list Z) (n : option Z) (sc : bool) (sub : option (list Z))
+    (req : list Z) (c i nst : Z),
+  (0 <= i -> nth_error clusters (Z.to_nat i) = Some c -> (length times <= Z.to_nat i)%nat -> In c req ->
+   select choose times clusters kept n sc sub req = None) /\
+  (nst <= 0 -> route choose times clusters grid nst = None).
+Proof.
+  intros. split; [apply select_index_error|apply route_guard].
+Qed.
+Print Assumptions C17_error_exits.
+
+(* link to C07: on C07's line-by-line model of _spikes_per_cluster (stable argsort, diff, nonzero,
+   dictionary comprehension) the dictionary spt has its keys in increasing order, equal to
+   np.unique(spike_templates) -- so sorted(spt.keys()) = list(spt.keys()) = the request list of
+   [route] -- and spt.get(c, empty) is [spikes_of c 0], the reading used by C17's model, for EVERY c
+   (present or not). *)
+Theorem C17_spikes_per_cluster_link : forall sc : list Z,
+  exists d, C07.Model.spikes_per_cluster sc None = Some d /\
+            map C07.Model.g_key d = unique sc /\
+            forall c, spt_get d c = spikes_of c 0 sc.
+Proof. exact spc_link. Qed.
+Print Assumptions C17_spikes_per_cluster_link.
+
+(* calls in which no requested cluster is sub-sampled (count None / <= 0 / >= the number of eligible
+   spikes, for every requested cluster) are DETERMINED: every oracle -- admissible or not -- gives
+   the same array r0, and r0 is the only array satisfying the statement.  This is exactly the case
+   in which the comparator demands equality with the model (code 1); in all other calls it judges
+   by the clauses only. *)
+Theorem C17_determined : forall (times clusters grid : list Z) (k : Z) (n : option Z) (req : list Z)
+    (sc : bool) (sub : option (list Z)),
+  length times = length clusters -> sortedZ grid -> 1 <= zlen grid -> 1 <= k ->
+  exists ivs, chunks_kept grid k = Some (flat ivs) /\
+    ((forall c, In c req -> subsamples n (zlen (elig times clusters ivs sc sub c)) = false) ->
+     exists r0, (forall choose, selector_call choose times clusters grid k n req sc sub = Some r0) /\
+                (forall r, Select_Spec times clusters ivs sc sub n req r <-> r = r0)).
+Proof. exact selector_determined. Qed.
+Print Assumptions C17_determined.
+
+(* WHICH regular stride.  The statement's "regular stride ... never more than the requested number"
+   is read with the anchored mechanism (stride = ceil(n_chunks / n_chunks_kept)), stated without the
+   formula as Kept_Dense: the densest regular selection from the first chunk that fits, i.e. no
+   smaller stride keeps <= k chunks.  For every grid with at least one bound and every k >= 1:
+   the kept chunks satisfy Kept_Dense; Kept_Dense has exactly one solution, so chunks_kept is
+   DETERMINED by the reading (an array is the model's chunks_kept iff it flattens a Kept_Dense list);
+   the checker kept_dense_b (comparator clause 27) decides it. *)
+Theorem C17_kept_densest : forall (grid : list Z) (k : Z), 1 <= k -> 1 <= zlen grid ->
+  (exists ivs, chunks_kept grid k = Some (flat ivs) /\ Kept_Dense grid k ivs) /\
+  (forall ivs ivs', Kept_Dense grid k ivs -> Kept_Dense grid k ivs' -> ivs = ivs') /\
+  (forall kept, chunks_kept grid k = Some kept <-> exists ivs, kept = flat ivs /\ Kept_Dense grid k ivs) /\
+  (forall kept, kept_dense_b grid k kept = true <-> exists ivs, kept = flat ivs /\ Kept_Dense grid k ivs).
+Proof.
+  intros grid k Hk Hl. split; [now apply chunks_kept_dense|]. split; [apply kept_dense_unique|].
+  split; [intros kept; now apply kept_exact|]. intros kept. split; [apply kept_dense_b_sound|].
+  intros (ivs & -> & H). now apply kept_dense_b_complete.
+Qed.
+Print Assumptions C17_kept_densest.
+
+(* ---- non-vacuity of the stage-3 theorems ---- *)
+(* an admissible draw other than choose0's: clusters 1 -> {3, 6}, the array [2; 3; 6] satisfies the
+   checker and is returned under the oracle chooseR [2; 3; 6] *)
+Example C17_ex_exact :
+  let times := [0; 1; 5; 9; 10; 10; 30; 35; 39; 40] in
+  let clusters := [1; 1; 2; 1; 1; 2; 1; 2; 1; 1] in
+  let sub := Some [0; 1; 2; 3; 4; 5; 6; 9] in
+  select_spec_b times clusters [mkiv 0 10; mkiv 30 40] true sub (Some 2) [2; 9; 1] [2; 3; 6] = true /\
+  selector_call (chooseR [2; 3; 6]) times clusters [0; 10; 20; 30; 40; 50] 2 (Some 2) [2; 9; 1] true sub
+    = Some [2; 3; 6] /\
+  selector_call choose0 times clusters [0; 10; 20; 30; 40; 50] 2 (Some 2) [2; 9; 1] true sub
+    = Some [0; 1; 2] /\
+  select_spec_b times clusters [mkiv 0 10; mkiv 30 40] true sub (Some 2) [2; 9; 1] [2; 3] = false.
+Proof. vm_compute. auto. Qed.
+(* reordered request with repetitions: same result *)
+Example C17_ex_request_order :
+  let times := [0; 1; 5; 9; 10; 10; 30; 35; 39; 40] in
+  let clusters := [1; 1; 2; 1; 1; 2; 1; 2; 1; 1] in
+  (forall c, In c [2; 9; 1] <-> In c [1; 1; 9; 2; 2]) /\
+  selector_call choose0 times clusters [0; 10; 20; 30; 40; 50] 2 (Some 2) [1; 1; 9; 2; 2] true None =
+  selector_call choose0 times clusters [0; 10; 20; 30; 40; 50] 2 (Some 2) [2; 9; 1] true None /\
+  selector_call choose0 times clusters [0; 10; 20; 30; 40; 50] 2 (Some 2) [2; 9; 1] true None
+    = Some [0; 1; 2; 7].
+Proof. split; [intros c; cbn [In]; intuition|vm_compute; auto]. Qed.
+(* the route with templates requested in decreasing order *)
+Example C17_ex_route_order :
+  route choose0 [0; 1; 5; 9; 10; 10; 30] [4; 1; 4; 1; 1; 4; 1] [0; 10; 20; 30; 40] 1 = Some [0; 1] /\
+  selector_call choose0 [0; 1; 5; 9; 10; 10; 30] [4; 1; 4; 1; 1; 4; 1] [0; 10; 20; 30; 40] 20 (Some 1)
+                [4; 1] true None = Some [0; 1].
+Proof. vm_compute. auto. Qed.
+Example C17_ex_error_exits :
+  select choose0 [0] [1; 1] [0; 10] None false None [1] = None /\
+  select choose0 [0] [1; 2] [0; 10] None false None [1] = Some [0] /\
+  route choose0 [0] [1] [0; 10] 0 = None.
+Proof. vm_compute. auto. Qed.
+Example C17_ex_link :
+  C07.Model.spikes_per_cluster [7; 0; 3; 3; 0; 7; 2] None =
+    Some [C07.Model.mkg 0 [1; 4]; C07.Model.mkg 2 [6]; C07.Model.mkg 3 [2; 3]; C07.Model.mkg 7 [0; 5]] /\
+  unique [7; 0; 3; 3; 0; 7; 2] = [0; 2; 3; 7] /\ spikes_of 3 0 [7; 0; 3; 3; 0; 7; 2] = [2; 3] /\
+  spikes_of 5 0 [7; 0; 3; 3; 0; 7; 2] = [].
+Proof. vm_compute. auto. Qed.
+(* count 4 >= the 4 (cluster 1) and 1 (cluster 2) eligible spikes: nothing is sub-sampled, an oracle
+   returning garbage is never consulted *)
+Example C17_ex_determined :
+  let times := [0; 1; 5; 9; 10; 10; 30; 35; 39; 40] in
+  let clusters := [1; 1; 2; 1; 1; 2; 1; 2; 1; 1] in
+  let sub := Some [0; 1; 2; 3; 4; 5; 6; 9] in
+  forallb (fun c => negb (subsamples (Some 4) (zlen (elig times clusters [mkiv 0 10; mkiv 30 40] true sub c))))
+          [2; 9; 1] = true /\
+  selector_call (fun _ _ _ => [77]) times clusters [0; 10; 20; 30; 40; 50] 2 (Some 4) [2; 9; 1] true sub
+    = Some [0; 1; 2; 3; 6].
+Proof. vm_compute. auto. Qed.
+(* 2 chunks, 7 requested: keeping only the first chunk (stride 2) is "a regular stride, not more than
+   7" but not the densest such selection; the code keeps both *)
+Example C17_ex_kept_densest :
+  kept_spec_b [0; 10; 20] 7 [0; 10] = true /\ kept_dense_b [0; 10; 20] 7 [0; 10] = false /\
+  kept_dense_b [0; 10; 20] 7 [0; 10; 10; 20] = true /\
+  kept_dense_b [0; 10; 20; 30; 40; 50] 2 [0; 10; 30; 40] = true /\
+  kept_dense_b [0; 10; 20; 30; 40; 50] 2 [0; 10] = false.
+Proof. vm_compute. auto. Qed.
